@@ -620,6 +620,19 @@ func (concpComp) Gen(rng *rand.Rand, tier string) [][]string {
 		}
 		return randOp()
 	}
+	// directed (histories of their own: window probes are judged by the linearizability checker only, the block model is not
+	// advanced by them): a writer stopped right after its entry reached the EMPTY pending batch of a fresh persister, before
+	// any of the persister's own bookkeeping — every read entry point must already agree on the key (Get, then Has, then Get)
+	for d := 0; d < 6; d++ {
+		kind := []string{"db", "serial"}[d%2]
+		pfx := kind
+		k := keys[d%len(keys)]
+		h := []string{fmt.Sprintf("begin concp kind=%s batch=%d timer=0 keys=%s", kind, []int{1, 2, 4}[d%3], strings.Join(keys, ","))}
+		h = append(h, fmt.Sprintf("window %s.put.afterBatchPut put:%s:%02x get:%s has:%s get:%s", pfx, k, 0xd0+d, k, k, k))
+		h = append(h, fmt.Sprintf("window %s.rm.afterBatchDelete rm:%s get:%s has:%s", pfx, k, k, k))
+		h = append(h, fmt.Sprintf("window batch.put.enter put:%s:%02x has:%s get:%s", k, 0xe0+d, k, k))
+		hs = append(hs, h)
+	}
 	for i := 0; i < nh; i++ {
 		kind := pick(rng, "db", "serial")
 		batch := pick(rng, 1, 2, 2, 3, 4)
